@@ -30,6 +30,13 @@ REQUIRED_HOOKS = [
     "class:uniform-degrees",
     "class:rotated",
     "class:off-centre",
+    "class:signed-zero-centre",
+    "function:odd-l-nonzero-at-centre",
+    "function:regular-at-centre",
+    "point:signed-zero-centre",
+    "point:signed-zero-axis",
+    "molecule:natom=1",
+    "molecule:weights=callable",
     "point:centre",
     "point:z-axis",
     "point:grid-point",
@@ -69,11 +76,13 @@ RULE = (
     "r=0 node, one hand-made grid with r=0 and one with a 1e-9 node] x 4 degree kinds [uniform, random per-shell, from_pruned "
     "sectors, sizes=]; shells 8-40, requested degrees 6-30, centre, rotation seed and the function are drawn from the case rng) "
     "plus one random band-limited function f = sum_{l<=L} g_lm(r) Y_lm, L = floor(min resolved degree / 2), g_lm ~ r^l at the "
-    "origin, Y from the independent recursion. Decided per case: shell angular integrals, shell-sum = integrate, spline nodal "
+    "origin (on grids without a shell at r<1e-6 half of the functions get l>=1 parts that do NOT vanish at r=0, so that the splines are O(1) "
+    "at the centre for odd l), Y from the independent recursion. Evaluation points include the centre in all 8 signed-zero forms and axis/plane "
+    "points with -0.0 components; centres include the origin given with -0.0 components. Decided per case: shell angular integrals, shell-sum = integrate, spline nodal "
     "values (and zeros above L), interpolant at all grid points, interpolant at 50-65 arbitrary points (centre, +-z axis, near-axis, "
     "node radii, extrapolation range) against sum spline x ref_Y, radial derivatives 1-3 / spherical derivatives / Cartesian "
     "gradient against numerical differentiation of the same returned callable, spherical average. One 'molecule' case = MolGrid of "
-    "2-4 such atomic grids with Becke or arbitrary array aim-weights; the molecular interpolant and its derivative outputs are "
+    "1-4 such atomic grids with Becke, arbitrary-array or custom-callable aim-weights (the latter two not partitions of unity); the molecular interpolant and its derivative outputs are "
     "compared with the sum of atomic interpolants of w_A f recomputed by the monitor. One 'paired' case = two or three AtomGrid "
     "objects in one process that agree in (method, rotation seed, per-shell degrees) and differ in exactly one other ingredient "
     "(r=0 node / no r=0 node / 1e-9 node, radial nodes, centre, radial weights), used alternately (X0, X1, [X2], X0 again, a "
@@ -123,7 +132,7 @@ def cases(tier, seed):
                 j += 1
     nmol = 64 if tier == "quick" else 640
     for i in range(nmol):
-        out.append(("molecule", {"method": METHODS[i % 4], "weights": ["becke", "array"][(i // 4) % 2], "natom": 2 + (i // 8) % 3, "k": i}, 1.5))
+        out.append(("molecule", {"method": METHODS[i % 4], "weights": ["becke", "array", "callable"][(i // 4) % 3], "natom": 1 + (i // 12) % 4, "k": i}, 1.5))
     return out
 
 
@@ -265,8 +274,8 @@ def _build_atom(ctx, params, rng, small=False):
         hi = 14
     elif not big:
         hi = min(hi, 22)
-    ckind = int(rng.integers(0, 3))
-    center = [None, rng.normal(size=3) * 2.0, np.array([0.0, 0.0, float(rng.uniform(-3, 3))])][ckind]
+    ckind = int(rng.integers(0, 4))  # origin (None), random, on the z-axis, origin given with signed zeros
+    center = [None, rng.normal(size=3) * 2.0, np.array([0.0, 0.0, float(rng.uniform(-3, 3))]), np.copysign(0.0, rng.normal(size=3))][ckind]
     rotate = 0 if rng.random() < 0.4 else int(rng.integers(1, 2**31))
     kw = {"center": center, "rotate": rotate, "method": m}
     if dk == "uniform":
@@ -298,8 +307,10 @@ def _classes(ctx, g, info):
     ctx.hit("class:mixed-degrees" if mixed else "class:uniform-degrees")
     if info["rotate"]:
         ctx.hit("class:rotated")
-    if info["centre_kind"]:
+    if np.any(info["center"]):
         ctx.hit("class:off-centre")
+    if np.any(np.signbit(info["center"]) & (info["center"] == 0)):
+        ctx.hit("class:signed-zero-centre")
     ctx.count("method:" + g.method)
     return r0, mixed
 
@@ -339,6 +350,21 @@ def _eval_points(g, center, rng, n_generic):
     add([0.0, -rr, 0.0], "generic")
     for _ in range(4):
         add(direction() * float(rng.choice(rpos)), "node-radius")
+
+    # signed zeros: the point IS the centre with every pattern of +0.0 / -0.0 displacement (x - c = -0.0 needs x = -0.0 and
+    # c = +0.0, so the component of the point itself is set), and points on the axes / planes with -0.0 components
+    def add_signed(d, tag):
+        d = np.asarray(d, float)
+        pts.append(np.where(center == 0, d, center + d))
+        tags.append(tag)
+
+    for sx in (0.0, -0.0):
+        for sy in (0.0, -0.0):
+            for sz in (0.0, -0.0):
+                add_signed([sx, sy, sz], "signed-zero-centre")
+    rr = float(np.exp(rng.uniform(np.log(rlo), np.log(rhi))))
+    for d in ([-0.0, -0.0, rr], [-0.0, 0.0, -rr], [0.0, -0.0, -rr], [rr, -0.0, -0.0], [-0.0, rr, -0.0], [-rr, -0.0, 0.0], [-rr, 0.0, -0.0], [-0.0, -rr, rr]):
+        add_signed(d, "signed-zero-axis")
     idx = rng.choice(g.size, size=min(5, g.size), replace=False)
     P = np.array(pts)
     G = g.points[idx]
@@ -413,7 +439,9 @@ def _check_grid(ctx, g, info, rng, forms=False, note="", n_generic=None):
     r, w = g.rgrid.points, g.rgrid.weights
     rpos = r[r > 1e-6]
     r_typ = float(np.exp(np.mean(np.log(rpos[: max(2, len(rpos) * 2 // 3)]))))
-    f = blo.BandLimited(rng, L, r_typ, c, sparse=bool(rng.random() < 0.3))
+    irregular = bool(r[0] > 1e-6 and rng.random() < 0.5)  # only where r = 0 is never sampled (see BandLimited)
+    ctx.hit("function:" + ("odd-l-nonzero-at-centre" if irregular else "regular-at-centre"))
+    f = blo.BandLimited(rng, L, r_typ, c, sparse=bool(rng.random() < 0.3), irregular=irregular)
     fv = f(g.points)
     S = float(np.max(np.abs(fv)))
     gex = f.g(r)  # ((L+1)^2, nshell) exact nodal values of the radial components
@@ -502,7 +530,7 @@ def _check_grid(ctx, g, info, rng, forms=False, note="", n_generic=None):
     if n_generic is None:
         n_generic = 24 if ctx.tier == "quick" else 40
     P, tags = _eval_points(g, c, rng, n_generic)
-    for t in ("centre", "z-axis", "grid-point"):
+    for t in ("centre", "z-axis", "grid-point", "signed-zero-centre", "signed-zero-axis"):
         ctx.hit("point:" + t, int(np.sum(tags == t)))
     rr, uu = blo.unit_and_radius(P, c)
     sinphi = np.sqrt(np.maximum(0.0, 1 - uu[:, 2] ** 2))
@@ -520,6 +548,18 @@ def _check_grid(ctx, g, info, rng, forms=False, note="", n_generic=None):
         # flags that must not change the values
         v2 = np.asarray(F(P, deriv=0, deriv_spherical=False, only_radial_deriv=True))
         ctx.check("interpolant-output-layout", subj + ":deriv=0,only_radial", np.shape(v2) == np.shape(vals) and np.allclose(v2, vals, rtol=0, atol=1e-12 * np.max(mag)), sig="values-changed")
+
+    # documented centre convention of the public conversion routine: r = 0 -> theta = phi = 0, for every signed-zero form
+    subjc = "AtomGrid.convert_cartesian_to_spherical:" + tag
+    with ctx.guard("centre-convention-signed-zeros", subjc):
+        Pz = P[tags == "signed-zero-centre"]
+        sp3 = np.asarray(g.convert_cartesian_to_spherical(Pz), dtype=float)
+        okc = sp3.shape == (len(Pz), 3) and bool(np.all(sp3[:, 0] == 0) and np.all(sp3[:, 2] == 0))
+        ctx.check("centre-convention-signed-zeros", subjc, okc, sig="phi-nonzero-at-centre" if sp3.shape == (len(Pz), 3) and np.all(sp3[:, 0] == 0) else "r-nonzero", detail={"rows": sp3[:8]})
+        if okc and np.any(sp3[:, 1] != 0):
+            ctx.count("not-decided:theta-nonzero-at-centre-for-negative-zero-x (harmless: only m=0 survives at phi=0)")
+        va = np.asarray(avg(np.array([0.0, -0.0, float(rpos[0])])), dtype=float)
+        ctx.check("centre-convention-signed-zeros", "AtomGrid.spherical_average:" + tag, bool(va[0] == va[1]) or bool(np.isnan(va[0]) and np.isnan(va[1])), sig="avg(-0.0)!=avg(0.0)")
 
     # radial derivatives nu = 1, 2, 3: decided everywhere (nu=3 not on a node sphere)
     def Fv(p):
@@ -777,10 +817,23 @@ def _run_molecule(ctx, params):
     subj = f"MolGrid.interpolate:{m}:{params['weights']}"
     mol = None
     with ctx.guard("molecular-sum-of-atomic", subj):
+        ctx.hit(f"molecule:natom={nat}")
+        ctx.hit("molecule:weights=" + params["weights"])
         if params["weights"] == "becke":
             mol = MolGrid(atnums, atgrids, BeckeWeights(order=3), store=True)
-        else:
+        elif params["weights"] == "array":  # arbitrary array, not a partition of unity
             mol = MolGrid(atnums, atgrids, rng.uniform(0.1, 1.0, size), store=True)
+        else:  # custom callable with the documented signature, smooth, not a partition of unity
+            a0, b0, g0 = float(rng.uniform(0.2, 0.6)), float(rng.uniform(0.3, 0.9)), float(rng.uniform(0.2, 1.0))
+
+            def custom_weights(points, atcoords, atnums_, indices):
+                wts = np.zeros(len(points))
+                for a in range(len(atcoords)):
+                    seg = slice(int(indices[a]), int(indices[a + 1]))
+                    wts[seg] = a0 + b0 * np.exp(-g0 * np.sum((points[seg] - atcoords[a]) ** 2, axis=1)) / (1.0 + a)
+                return wts
+
+            mol = MolGrid(atnums, atgrids, custom_weights, store=True)
     if mol is None:
         return
     # a smooth molecular function: sum of low-order band-limited pieces around each atom
